@@ -464,19 +464,28 @@ func c26Resolve(c *Ctx) *c26Ctx {
 	return x
 }
 
-// c26Defs lists the expressions assigned to v anywhere in the goroutine literal (op-assignments as (op, rhs)).
-func c26Defs(x *c26Ctx, v *types.Var) (plain []ast.Expr, opAssign []*ast.AssignStmt, other bool) {
-	ast.Inspect(x.lit.Body, func(n ast.Node) bool {
+// c26MultiDef is a definition `..., v, ... := f(...)`: v receives result Idx of Call.
+type c26MultiDef struct {
+	Call *ast.CallExpr
+	Idx  int
+}
+
+// c26DefsIn lists the definitions of v inside body: plain single-value assignments, op-assignments,
+// multi-value assignments from one call, and anything else (inc/dec, address taken, tuple from a non-call).
+func c26DefsIn(info *types.Info, body ast.Node, v *types.Var) (plain []ast.Expr, opAssign []*ast.AssignStmt, multi []c26MultiDef, other bool) {
+	ast.Inspect(body, func(n ast.Node) bool {
 		switch s := n.(type) {
 		case *ast.AssignStmt:
 			for i, l := range s.Lhs {
-				if core.VarOf(x.info, l) != v {
+				if core.VarOf(info, l) != v {
 					continue
 				}
 				switch {
 				case s.Tok == token.ASSIGN || s.Tok == token.DEFINE:
 					if len(s.Lhs) == len(s.Rhs) {
 						plain = append(plain, s.Rhs[i])
+					} else if call, ok := ast.Unparen(s.Rhs[0]).(*ast.CallExpr); ok && len(s.Rhs) == 1 {
+						multi = append(multi, c26MultiDef{call, i})
 					} else {
 						other = true
 					}
@@ -485,23 +494,108 @@ func c26Defs(x *c26Ctx, v *types.Var) (plain []ast.Expr, opAssign []*ast.AssignS
 				}
 			}
 		case *ast.IncDecStmt:
-			if core.VarOf(x.info, s.X) == v {
+			if core.VarOf(info, s.X) == v {
 				other = true
 			}
 		case *ast.UnaryExpr:
-			if s.Op == token.AND && core.VarOf(x.info, s.X) == v {
+			if s.Op == token.AND && core.VarOf(info, s.X) == v {
+				other = true
+			}
+		case *ast.RangeStmt:
+			if (s.Key != nil && core.VarOf(info, s.Key) == v) || (s.Value != nil && core.VarOf(info, s.Value) == v) {
 				other = true
 			}
 		case *ast.ValueSpec:
 			for i, nm := range s.Names {
-				if x.info.Defs[nm] == types.Object(v) && i < len(s.Values) {
+				if info.Defs[nm] != types.Object(v) {
+					continue
+				}
+				switch {
+				case len(s.Values) == len(s.Names):
 					plain = append(plain, s.Values[i])
+				case len(s.Values) == 1:
+					if call, ok := ast.Unparen(s.Values[0]).(*ast.CallExpr); ok {
+						multi = append(multi, c26MultiDef{call, i})
+					} else {
+						other = true
+					}
 				}
 			}
 		}
 		return true
 	})
 	return
+}
+
+// c26Defs lists the definitions of v in the goroutine literal; a multi-value definition counts as "other"
+// (callers that can follow the callee use c26DefsIn).
+func c26Defs(x *c26Ctx, v *types.Var) (plain []ast.Expr, opAssign []*ast.AssignStmt, other bool) {
+	var multi []c26MultiDef
+	plain, opAssign, multi, other = c26DefsIn(x.info, x.lit.Body, v)
+	if len(multi) > 0 {
+		other = true
+	}
+	return
+}
+
+// c26Helper resolves the callee of a multi-value definition to a declared function of the module with a body.
+func c26Helper(c *Ctx, info *types.Info, call *ast.CallExpr) *core.FuncInfo {
+	fi := c.P.DeclOf(core.Callee(info, call))
+	if fi == nil || fi.Decl.Body == nil {
+		return nil
+	}
+	return fi
+}
+
+// c26ResultExprs lists, for result idx of helper h, the expression every return statement yields
+// (the named result variable for a naked return). ok=false when a return forwards another call's tuple.
+func c26ResultExprs(h *core.FuncInfo, idx int) (exprs []ast.Expr, named *types.Var, ok bool) {
+	sig := h.Obj.Type().(*types.Signature)
+	if idx >= sig.Results().Len() {
+		return nil, nil, false
+	}
+	if rv := sig.Results().At(idx); rv.Name() != "" && rv.Name() != "_" {
+		named = rv
+	}
+	ok = true
+	var walk func(n ast.Node) bool
+	walk = func(n ast.Node) bool {
+		if _, isLit := n.(*ast.FuncLit); isLit {
+			return false
+		}
+		ret, isRet := n.(*ast.ReturnStmt)
+		if !isRet {
+			return true
+		}
+		switch {
+		case len(ret.Results) == 0:
+			if named == nil {
+				ok = false
+			}
+			// naked return: the named result variable (represented by nil expression)
+			exprs = append(exprs, nil)
+		case len(ret.Results) == sig.Results().Len():
+			exprs = append(exprs, ret.Results[idx])
+		default:
+			ok = false
+		}
+		return true
+	}
+	ast.Inspect(h.Decl.Body, walk)
+	return
+}
+
+func c26IsParamOf(h *core.FuncInfo, v *types.Var) bool {
+	sig := h.Obj.Type().(*types.Signature)
+	if sig.Recv() == v {
+		return true
+	}
+	for i := 0; i < sig.Params().Len(); i++ {
+		if sig.Params().At(i) == v {
+			return true
+		}
+	}
+	return false
 }
 
 func c26IsUnsigned(t types.Type) bool {
@@ -548,34 +642,128 @@ func c26Width(b *types.Basic) int {
 }
 
 func c26NonNegVar(x *c26Ctx, v *types.Var) (bool, string) {
+	return c26NonNegVarIn(x.c, x.info, x.lit.Body, nil, v, 0)
+}
+
+// c26NonNegVarIn proves v >= 0 from its definitions inside body (h is the enclosing helper, nil for the
+// goroutine literal): unsigned type, or every definition is a non-negative expression, or result k of a
+// same-module helper whose every return yields a non-negative value for that result.
+func c26NonNegVarIn(c *Ctx, info *types.Info, body ast.Node, h *core.FuncInfo, v *types.Var, depth int) (bool, string) {
 	if c26IsUnsigned(v.Type()) {
 		return true, ""
 	}
-	plain, ops, other := c26Defs(x, v)
+	if h != nil && c26IsParamOf(h, v) {
+		return false, v.Name() + " is a parameter of " + h.Name()
+	}
+	plain, ops, multi, other := c26DefsIn(info, body, v)
 	if other || len(ops) > 0 {
 		return false, v.Name() + " is modified by an op-assignment or through its address"
 	}
 	for _, e := range plain {
-		if !c26NonNegExpr(x.info, e) {
+		if !c26NonNegExpr(info, e) {
 			return false, v.Name() + " = " + exprStr(e)
 		}
 	}
-	return len(plain) > 0, "no definition found"
+	for _, m := range multi {
+		callee := c26Helper(c, info, m.Call)
+		if callee == nil || depth >= 2 {
+			return false, v.Name() + " is a result of " + calleeName(info, m.Call) + ", which is not a function of the module that can be followed"
+		}
+		if ok, why := c26NonNegResult(c, callee, m.Idx, depth+1); !ok {
+			return false, "result " + itoa26(m.Idx) + " of " + callee.Name() + ": " + why
+		}
+	}
+	isNamedResult := false
+	if h != nil {
+		sig := h.Obj.Type().(*types.Signature)
+		for i := 0; i < sig.Results().Len(); i++ {
+			if sig.Results().At(i) == v {
+				isNamedResult = true // starts at the zero value
+			}
+		}
+	}
+	if len(plain)+len(multi) == 0 && !isNamedResult {
+		return false, "no definition found for " + v.Name()
+	}
+	return true, ""
 }
 
-// c26MinOfVar: a lower bound of the header length: the constant part of its plain definition when all
-// other terms are non-negative multiples of unsigned values and later changes only add unsigned amounts.
-func c26MinOfVar(x *c26Ctx, v *types.Var) int64 {
-	plain, ops, other := c26Defs(x, v)
-	if other || len(plain) != 1 {
+func itoa26(i int) string { return sprintf("%d", i) }
+
+// c26NonNegResult proves that result idx of helper h is >= 0 on every return.
+func c26NonNegResult(c *Ctx, h *core.FuncInfo, idx int, depth int) (bool, string) {
+	sig := h.Obj.Type().(*types.Signature)
+	if idx < sig.Results().Len() && c26IsUnsigned(sig.Results().At(idx).Type()) {
+		return true, ""
+	}
+	exprs, named, ok := c26ResultExprs(h, idx)
+	if !ok || len(exprs) == 0 {
+		return false, "a return statement forwards a tuple or the function never returns"
+	}
+	info := h.Pkg.TypesInfo
+	for _, e := range exprs {
+		var rv *types.Var
+		if e == nil {
+			rv = named
+		} else if c26NonNegExpr(info, e) {
+			continue
+		} else {
+			rv = core.VarOf(info, ast.Unparen(e))
+		}
+		if rv == nil {
+			return false, "returns " + exprStr(e)
+		}
+		if ok, why := c26NonNegVarIn(c, info, h.Decl.Body, h, rv, depth); !ok {
+			return false, why
+		}
+	}
+	return true, ""
+}
+
+// c26MinOfVarIn: a lower bound of v from its definitions inside body: the constant part of its single plain
+// definition when all other terms are non-negative multiples of unsigned values and later changes only add
+// unsigned amounts. For a named result of helper h the definition must lie on every path to the exit
+// (otherwise the zero value can be returned). A single multi-value definition is followed into the helper.
+func c26MinOfVarIn(c *Ctx, info *types.Info, body ast.Node, h *core.FuncInfo, v *types.Var, depth int) int64 {
+	plain, ops, multi, other := c26DefsIn(info, body, v)
+	if other {
+		return 0
+	}
+	if len(plain) == 0 && len(ops) == 0 && len(multi) == 1 && depth < 2 {
+		callee := c26Helper(c, info, multi[0].Call)
+		if callee == nil {
+			return 0
+		}
+		exprs, named, ok := c26ResultExprs(callee, multi[0].Idx)
+		if !ok || len(exprs) == 0 {
+			return 0
+		}
+		cinfo := callee.Pkg.TypesInfo
+		var rv *types.Var
+		for _, e := range exprs {
+			w := named
+			if e != nil {
+				w = core.VarOf(cinfo, ast.Unparen(e))
+			}
+			if w == nil || (rv != nil && w != rv) {
+				return 0
+			}
+			rv = w
+		}
+		if c26IsParamOf(callee, rv) {
+			return 0
+		}
+		return c26MinOfVarIn(c, cinfo, callee.Decl.Body, callee, rv, depth+1)
+	}
+	if len(multi) > 0 || len(plain) != 1 {
 		return 0
 	}
 	for _, s := range ops {
-		if s.Tok != token.ADD_ASSIGN || !c26NonNegExpr(x.info, s.Rhs[0]) {
+		if s.Tok != token.ADD_ASSIGN || !c26NonNegExpr(info, s.Rhs[0]) {
 			return 0
 		}
 	}
-	l, ok := c26LinOf(x.info, plain[0])
+	l, ok := c26LinOf(info, plain[0])
 	if !ok || l.k < 0 {
 		return 0
 	}
@@ -584,7 +772,46 @@ func c26MinOfVar(x *c26Ctx, v *types.Var) int64 {
 			return 0
 		}
 	}
+	if h != nil {
+		// a named result (or a `var` declared earlier) starts at zero: the definition must dominate the exit
+		isDecl := false
+		ast.Inspect(body, func(n ast.Node) bool {
+			if as, ok := n.(*ast.AssignStmt); ok && as.Tok == token.DEFINE {
+				for i, lhs := range as.Lhs {
+					if id, ok := lhs.(*ast.Ident); ok && info.Defs[id] == types.Object(v) && i < len(as.Rhs) && as.Rhs[i] == plain[0] {
+						isDecl = true
+					}
+				}
+			}
+			return true
+		})
+		if !isDecl {
+			g := c.P.GraphOf(h)
+			if g == nil {
+				return 0
+			}
+			defs := g.FindNodes(func(n ast.Node) bool {
+				as, ok := n.(*ast.AssignStmt)
+				if !ok || len(as.Lhs) != len(as.Rhs) {
+					return false
+				}
+				for i := range as.Lhs {
+					if as.Rhs[i] == plain[0] {
+						return true
+					}
+				}
+				return false
+			})
+			if len(defs) == 0 || !g.Dominated(g.Exit, core.NodeSet(defs)) {
+				return 0
+			}
+		}
+	}
 	return l.k
+}
+
+func c26MinOfVar(x *c26Ctx, v *types.Var) int64 {
+	return c26MinOfVarIn(x.c, x.info, x.lit.Body, nil, v, 0)
 }
 
 // c26BufWrites lists the nodes that write into the buffer or hand it on, with a canonical description.
